@@ -4,9 +4,9 @@ import SedVerif.Drv.Proto
 import SedVerif.Drv.Approx
 /-! Driver ops for C17 (plotted model SEDs). -/
 namespace Drv
-open SF
+open SF SF.Plt
 
-def readMode : Rd SedType := do
+def readMode17 : Rd SedType := do
   let t ← tok
   match t with
   | "interp" => pure .interp
@@ -19,7 +19,7 @@ def readPair17 : Rd (Rat × Rat) := do
   let a ← rat; let b ← rat; pure (a, b)
 
 /-- common context: `c dOld kpc  naps {ap}*  nf {fwav theta}*` -/
-def readCtx : Rd (PlotCtx Rat) := do
+def readCtx17 : Rd (PlotCtx Rat) := do
   let c ← rat; let dOld ← rat; let kpc ← rat
   let aps ← listOf rat
   let filt ← listOf readPair17
@@ -27,35 +27,35 @@ def readCtx : Rd (PlotCtx Rat) := do
 
 /-- one fit: `sc av nrows {wav nu nflux {flux}*}*`; the extinction law is evaluated with the model of
     `Extinction.get_av` -/
-def readFit (tab : List (Rat × Rat)) (v : Rat) : Rd (PlotFit Rat) := do
+def readFit17 (tab : List (Rat × Rat)) (v : Rat) : Rd (PlotFit Rat) := do
   let sc ← rat; let av ← rat
   let rows ← listOf (do
     let w ← rat; let nu ← rat; let fl ← listOf rat
     pure ({ wav := w, nu := nu, k := getAv tab v w, flux := fl } : SedRow Rat))
   pure { sc := sc, av := av, rows := rows }
 
-def showCurve (c : Curve Rat) : String :=
+def showCurve17 (c : Curve Rat) : String :=
   " ".intercalate (toString c.length :: c.map (fun p => s!"{showRat p.1} {showRat p.2}"))
 
 /-- `curves mode <ctx> V ntab {wav chi}* nfits {fit}*` (fits best first)
     → `R ncurves {npts {wav val}*}*` | `E tooSmall` | `E shape` -/
-def opCurves : Rd String := do
-  let mode ← readMode
-  let P ← readCtx
+def opCurves17 : Rd String := do
+  let mode ← readMode17
+  let P ← readCtx17
   let v ← rat
   let tab ← listOf readPair17
-  let fits ← listOf (readFit tab v)
+  let fits ← listOf (readFit17 tab v)
   match curves lg exp10 P mode fits with
   | .error .tooSmall => pure "E tooSmall"
   | .error .shape => pure "E shape"
-  | .ok cs => pure (" ".intercalate ("R" :: toString cs.length :: cs.map showCurve))
+  | .ok cs => pure (" ".intercalate ("R" :: toString cs.length :: cs.map showCurve17))
 
 /-- `curve <ctx> sc av  nb {theta k nu ncell {cell}*}*`: the right-hand side of `C17_through` for every
     fitted band: stored predicted log flux (`predStored3` at the grid distance `10**sc` for a
     multi-aperture package, `predStored2` otherwise) and the curve value
     `10**pred · ν · c · (dOld/KPC)²`  →  `nb {pred value}*` -/
-def opCurve : Rd String := do
-  let P ← readCtx
+def opCurve17 : Rd String := do
+  let P ← readCtx17
   let sc ← rat; let av ← rat
   let bands ← listOf (do
     let th ← rat; let k ← rat; let nu ← rat; let cell ← listOf rat
@@ -69,8 +69,8 @@ def opCurve : Rd String := do
 
 def handleC17 (op : String) : Option (Rd String) :=
   match op with
-  | "curves" => some opCurves
-  | "curve" => some opCurve
+  | "curves" => some opCurves17
+  | "curve" => some opCurve17
   | _ => none
 
 end Drv
